@@ -2360,13 +2360,18 @@ func (r *RIBHolder) GetRIB(filter map[spb.AFTType]bool, msgCh chan *spb.GetRespo
 				if err != nil {
 					return status.Errorf(codes.Internal, "cannot marshal IPv4Entry for %s into GetResponse, %v", pfx, err)
 				}
-				msgCh <- &spb.GetResponse{
+				// Do not block forever on a consumer that has gone away (we hold the RIB lock).
+				select {
+				case msgCh <- &spb.GetResponse{
 					Entry: []*spb.AFTEntry{{
 						NetworkInstance: r.name,
 						Entry: &spb.AFTEntry_Ipv4{
 							Ipv4: p,
 						},
 					}},
+				}:
+				case <-stopCh:
+					return nil
 				}
 			}
 		}
@@ -2382,13 +2387,18 @@ func (r *RIBHolder) GetRIB(filter map[spb.AFTType]bool, msgCh chan *spb.GetRespo
 				if err != nil {
 					return status.Errorf(codes.Internal, "cannot marshal IPv6Entry for %s into GetResponse, %v", pfx, err)
 				}
-				msgCh <- &spb.GetResponse{
+				// Do not block forever on a consumer that has gone away (we hold the RIB lock).
+				select {
+				case msgCh <- &spb.GetResponse{
 					Entry: []*spb.AFTEntry{{
 						NetworkInstance: r.name,
 						Entry: &spb.AFTEntry_Ipv6{
 							Ipv6: p,
 						},
 					}},
+				}:
+				case <-stopCh:
+					return nil
 				}
 			}
 		}
@@ -2404,13 +2414,18 @@ func (r *RIBHolder) GetRIB(filter map[spb.AFTType]bool, msgCh chan *spb.GetRespo
 				if err != nil {
 					return status.Errorf(codes.Internal, "cannot marshal MPLS entry for label %d into GetResponse, %v", lbl, err)
 				}
-				msgCh <- &spb.GetResponse{
+				// Do not block forever on a consumer that has gone away (we hold the RIB lock).
+				select {
+				case msgCh <- &spb.GetResponse{
 					Entry: []*spb.AFTEntry{{
 						NetworkInstance: r.name,
 						Entry: &spb.AFTEntry_Mpls{
 							Mpls: p,
 						},
 					}},
+				}:
+				case <-stopCh:
+					return nil
 				}
 			}
 		}
@@ -2426,13 +2441,18 @@ func (r *RIBHolder) GetRIB(filter map[spb.AFTType]bool, msgCh chan *spb.GetRespo
 				if err != nil {
 					return status.Errorf(codes.Internal, "cannot marshal NextHopGroupEntry for index %d into GetResponse, %v", index, err)
 				}
-				msgCh <- &spb.GetResponse{
+				// Do not block forever on a consumer that has gone away (we hold the RIB lock).
+				select {
+				case msgCh <- &spb.GetResponse{
 					Entry: []*spb.AFTEntry{{
 						NetworkInstance: r.name,
 						Entry: &spb.AFTEntry_NextHopGroup{
 							NextHopGroup: p,
 						},
 					}},
+				}:
+				case <-stopCh:
+					return nil
 				}
 			}
 		}
@@ -2448,13 +2468,18 @@ func (r *RIBHolder) GetRIB(filter map[spb.AFTType]bool, msgCh chan *spb.GetRespo
 				if err != nil {
 					return status.Errorf(codes.Internal, "cannot marshal NextHopEntry for ID %d into GetResponse, %v", id, err)
 				}
-				msgCh <- &spb.GetResponse{
+				// Do not block forever on a consumer that has gone away (we hold the RIB lock).
+				select {
+				case msgCh <- &spb.GetResponse{
 					Entry: []*spb.AFTEntry{{
 						NetworkInstance: r.name,
 						Entry: &spb.AFTEntry_NextHop{
 							NextHop: p,
 						},
 					}},
+				}:
+				case <-stopCh:
+					return nil
 				}
 			}
 		}
